@@ -467,6 +467,42 @@ def check_math(acc: core.Acc) -> None:
                 acc.fail('math_operand_mutated', {'math': [name, on]}, f'{name}{on} changed or returned its operand', form=f'{name}{on}')
 
 
+    from srctools.math import FrozenMatrix
+    rots = {'Matrix': lambda: Matrix.from_angle(10.0, 20.0, 30.0), 'FrozenMatrix': lambda: FrozenMatrix.from_angle(10.0, 20.0, 30.0),
+            'Angle': lambda: Angle(40.0, 50.0, 60.0), 'FrozenAngle': lambda: FrozenAngle(40.0, 50.0, 60.0)}
+    vecs = {'Vec': lambda: Vec(1.5, -2.0, 3.25), 'FrozenVec': lambda: FrozenVec(1.5, -2.0, 3.25), 'tuple': lambda: (4.0, 5.0, -6.0)}
+
+    def rsnap(x):
+        if isinstance(x, (Matrix, FrozenMatrix)):
+            return tuple(x[i, j] for i in range(3) for j in range(3))
+        return tuple(x)
+    for (ln, lm), (rn, rm) in itertools.product({**rots, **vecs}.items(), rots.items()):
+        acc.evaluations += 1
+        a, b = lm(), rm()
+        sa, sb = rsnap(a), rsnap(b)
+        try:
+            res = a @ b
+        except TypeError:
+            continue
+        if rsnap(a) != sa or rsnap(b) != sb:
+            acc.fail('math_operand_mutated', {'math': [ln, '@', rn]}, f'{ln} @ {rn} changed an operand: {sa} -> {rsnap(a)} / {sb} -> {rsnap(b)}', form=f'{ln}@{rn}')
+        if (res is a and not type(a).__name__.startswith('Frozen')) or res is b:
+            acc.fail('math_returns_operand', {'math': [ln, '@', rn]}, f'{ln} @ {rn} returned an operand', form=f'{ln}@{rn}')
+        if type(res).__name__.startswith('Frozen') != type(a).__name__.startswith('Frozen') and ln != 'tuple':
+            acc.fail('math_result_kind', {'math': [ln, '@', rn]}, f'{ln} @ {rn} produced a {type(res).__name__}', form=f'{ln}@{rn}')
+    for name, mk in (('Matrix', rots['Matrix']), ('FrozenMatrix', rots['FrozenMatrix'])):
+        for un, fn in (('transpose', lambda m: m.transpose()), ('inverse', lambda m: m.inverse()), ('copy', lambda m: m.copy()),
+                       ('to_angle', lambda m: m.to_angle()), ('forward', lambda m: m.forward())):
+            acc.evaluations += 1
+            a = mk()
+            sa = rsnap(a)
+            r = fn(a)
+            if rsnap(a) != sa:
+                acc.fail('math_operand_mutated', {'math': [name, un]}, f'{name}.{un}() changed its operand', form=f'{un}{name}')
+            if r is a and name == 'Matrix':
+                acc.fail('math_returns_operand', {'math': [name, un]}, f'{name}.{un}() returned its operand', form=f'{un}{name}')
+
+
 # ------------------------------------------------------------------------------------------------
 
 def shard(spec) -> core.Acc:
